@@ -311,6 +311,10 @@ def r_par(idx, rep, rule="R-PAR", floor=10):
                             si = [u(s.slice) for s in src]
                             good = sb == bases and len(set(si)) == 1
                             why = "sources %s rows %s" % (sb, si)
+                        elif isinstance(src[0], ast.BinOp) and isinstance(src[0].op, ast.Sub) and u(src[0].left) == u(src[1]) and u(src[0].right) == u(src[2]):
+                            # (a - b, a, b): the DEFINITION of a support triple of the Minkowski difference, written out (make_support_point inlined)
+                            good = True
+                            why = "sources (%s - %s, %s, %s)" % (u(src[1]), u(src[2]), u(src[1]), u(src[2]))
                         else:
                             names = [u(s) for s in src]
                             ps_ = f.params()
